@@ -76,6 +76,20 @@ type sched struct {
 
 var s *sched // current execution; nil when free-running
 
+// free-running mode (race pass): threads are plain goroutines, Join waits for
+// them, Point/Choose are no-ops. Used to run the same harness bodies under the
+// race detector, whose reports the cooperative scheduler would mask.
+var freeWG *sync.WaitGroup
+
+// RunFree runs body with GoNamed/Join mapped to real goroutines.
+func RunFree(body func()) {
+	var wg sync.WaitGroup
+	freeWG = &wg
+	body()
+	wg.Wait()
+	freeWG = nil
+}
+
 // Active reports whether a controlled execution is in progress. The shims fall
 // back to real primitives when not (so the same binary can run free under -race).
 func Active() bool { return s != nil && s.active }
@@ -192,6 +206,11 @@ func Go(f func()) { GoNamed("", f) }
 func GoNamed(name string, f func()) {
 	sc := s
 	if sc == nil || !sc.active {
+		if wg := freeWG; wg != nil {
+			wg.Add(1)
+			go func() { defer wg.Done(); f() }()
+			return
+		}
 		go f()
 		return
 	}
@@ -331,6 +350,9 @@ func Run(prefix []int, horizon int, body func()) *Exec {
 func Join() {
 	sc := s
 	if sc == nil || !sc.active {
+		if wg := freeWG; wg != nil {
+			wg.Wait()
+		}
 		return
 	}
 	me := sc.checkCaller("Join")
